@@ -92,6 +92,14 @@ func (s Segment) Check(params index.Params) error {
 		indexTime = item.Timestamp
 	}
 
+	// a short read is reported as EOF, make sure there is no partial message header left at the end
+	switch stat, err := os.Stat(s.Log); {
+	case err != nil:
+		return fmt.Errorf("check stat: %w", err)
+	case stat.Size() > position:
+		return fmt.Errorf("%w: partial message at the end", message.ErrCorrupted)
+	}
+
 	switch items, err := index.Read(s.Index, s.Offset, params); {
 	case errors.Is(err, os.ErrNotExist):
 		return nil
@@ -141,6 +149,16 @@ func (s Segment) Recover(params index.Params) error {
 		indexTime = item.Timestamp
 
 		position = nextPosition
+	}
+
+	if !corrupted {
+		// a short read is reported as EOF, a partial message header left at the end needs to be dropped
+		switch stat, err := os.Stat(s.Log); {
+		case err != nil:
+			return fmt.Errorf("restore stat: %w", err)
+		case stat.Size() > position:
+			corrupted = true
+		}
 	}
 
 	if err := log.Close(); err != nil {
